@@ -368,6 +368,11 @@ def main():
                 tasks.append(('suite', t_suite(fn, d, ml)))
         chk.summaries['SetUniformBytes / Point.Add (inside the suite drivers)'] = 'opaque map_to_curve / group addition: discharged by uniform/*, swu/*, iso/* and C03'
 
+    from .common import include_ring_dependency
+    if not only or 'dep' in only:
+        include_ring_dependency(chk, tasks, 'C01', 'field', ['field_extras'],
+                                'hash_to_field is Element.SetWideBytes (OS2IP mod p) and the SWU map uses Element.SqrtRatio; the value-model layer of this check uses their '
+                                'contracts, the real code of both is re-decided here at full width')
     chk.run_tasks(tasks)
     chk.discharge()
     chk.finish()
